@@ -265,6 +265,21 @@ fn gen_host(i: usize, w: &mut Rng, twin_of: Option<&HostCfg>, twin_dim: u64) -> 
                     }
                 }
             }
+            // 5: source and destination swapped (the reverse direction of
+            // the same conversation with the same identification)
+            5 => {
+                std::mem::swap(&mut h.src, &mut h.dst);
+            }
+            // 6 / 7: only the source / only the destination differs, in its
+            // last byte (IPv4: byte 3, IPv6: byte 15)
+            6 => {
+                let k = if t.v6 { 15 } else { 3 };
+                h.src[k] ^= 1 << w.below(8);
+            }
+            7 => {
+                let k = if t.v6 { 15 } else { 3 };
+                h.dst[k] ^= 1 << w.below(8);
+            }
             // 3: identical stream key dimensions; the twin's datagrams then
             // differ from the sibling's only in the upper 16 bits of the
             // (32-bit, IPv6) identification - see `plan`
@@ -416,7 +431,7 @@ impl World {
         let mut hosts: Vec<HostCfg> = Vec::new();
         for i in 0..cfg.hosts {
             let twin = if cfg.twins && i % 2 == 1 { hosts.get(i - 1).cloned() } else { None };
-            let dim = w.below(5);
+            let dim = w.below(8);
             hosts.push(gen_host(i, &mut w, twin.as_ref(), dim));
         }
         let mut world = World {
